@@ -349,9 +349,237 @@ def targets_assign():
 
 def targets_c06():
     from . import launcher_c
-    return targets_c13() + targets_assign() + [Target('__init__', 'cdiv', [cdiv_config()])] + launcher_c.targets()
+    return targets_c13() + targets_assign() + [Target('__init__', 'cdiv', [cdiv_config()])] + launcher_c.targets() + targets_level()
 
 
 def targets_c07():
     from . import launcher_c
-    return [Target('__init__', 'cdiv', [cdiv_config()])] + launcher_c.targets()
+    return [Target('__init__', 'cdiv', [cdiv_config()])] + launcher_c.targets() + targets_level()
+
+
+# ------------------------------------------------------------------------------------------------------------ level loops
+from pyvc.models_obj import Table2  # noqa: E402
+
+NR = z3.Function('NR', z3.IntSort(), z3.IntSort(), z3.IntSort())      # ghost: rising count returned for (op index, lane)
+NF = z3.Function('NF', z3.IntSort(), z3.IntSort(), z3.IntSort())
+OPSF = z3.Function('OPS', z3.IntSort(), z3.IntSort(), z3.IntSort())
+I2 = z3.ArraySort(z3.IntSort(), z3.ArraySort(z3.IntSort(), z3.IntSort()))
+
+
+class Opaque(Model):
+    """an argument that is only passed on (c, c_locs, c_caps, delays)"""
+    def __init__(self, name):
+        self.name = name
+
+
+class SimCtl(Model):
+    def m_getitem(self, ex, st, idx, node):
+        if isinstance(idx, tuple) and len(idx) == 2 and idx[0] == slice(None, None, None):
+            return SimCtlCol(idx[1])
+        raise NotInSubset('simctl_int index')
+
+
+class SimCtlCol(Model):
+    def __init__(self, lane):
+        self.lane = lane
+
+
+class Abuf(Model):
+    """abuf[a_loc, sim] : heap['abuf'] : Array Int -> Array Int -> Int"""
+
+    def _ij(self, idx):
+        if not (isinstance(idx, tuple) and len(idx) == 2):
+            raise NotInSubset('abuf index')
+        return to_int(idx[0]), to_int(idx[1])
+
+    def m_getitem(self, ex, st, idx, node):
+        a, s = self._ij(idx)
+        return SInt(st.heap['abuf'][a][s])
+
+    def m_setitem(self, ex, st, idx, val, node):
+        a, s = self._ij(idx)
+        ex.prove(st, 'lane:abuf updated only in the own lane', s == to_int(st.env['__lane__']), node)
+        ex.prove(st, 'index-in-bounds:abuf row', z3.And(a >= 0, a < to_int(st.env['__abuf_len__'])), node)
+        A = st.heap['abuf']
+        st.heap['abuf'] = z3.Store(A, a, z3.Store(A[a], s, to_int(val)))
+
+
+def eval_callee(ex, st, args, kwargs, node):
+    """modular call of wave_eval_cpu / _wave_eval_gpu against the contract of _wave_eval (proved in C03): returns the ghost counts of
+    (op, lane); ghost call counter per (op index, lane); the waveform memory is passed through (frame: own output region of the own lane)"""
+    op, c, c_locs, c_caps, sim, delays, sc, seed = args
+    k = st.env['__op_index__']
+    ok = isinstance(op, tuple) and len(op) == 9 and all(z3.eq(z3.simplify(to_int(op[j]) - OPSF(to_int(k), j)), z3.IntVal(0)) for j in range(9))
+    ex.prove(st, 'call:evaluates the row of the current op index', ok, node)
+    ex.prove(st, 'call:passes c, c_locs, c_caps, delays through', all(isinstance(x, Opaque) and x.name == nm for x, nm in zip((c, c_locs, c_caps, delays), ('c', 'c_locs', 'c_caps', 'delays'))), node)
+    ex.prove(st, 'call:lane control column is the own lane', isinstance(sc, SimCtlCol) and (to_int(sc.lane) == to_int(sim)), node)
+    st.env['__lane__'] = sim
+    C = st.heap['calls']
+    kk, ss = to_int(k), to_int(sim)
+    st.heap['calls'] = z3.Store(C, kk, z3.Store(C[kk], ss, C[kk][ss] + 1))
+    return (SInt(NR(kk, ss)), SInt(NF(kk, ss)))
+
+
+def contrib(k, s):
+    return NR(k, s) * OPSF(k, 7) + NF(k, s) * OPSF(k, 8)
+
+
+def level_eval_config():
+    def setup(ex):
+        st = State()
+        a, b_, s0, s1, nops, alen = (ex.fv(n, 'int') for n in ('op_start', 'op_stop', 'sim_start', 'sim_stop', 'n_ops', 'abuf_len'))
+        st.assume(SBool(z3.And(0 <= a.e, a.e <= b_.e, b_.e <= nops.e, 0 <= s0.e, s0.e <= s1.e, alen.e >= 1)))
+        k = z3.Int('k')
+        st.assume(SBool(z3.ForAll([k], z3.Implies(z3.And(0 <= k, k < nops.e), OPSF(k, 6) < alen.e))))       # requires: accumulator indices inside abuf
+        st.heap['abuf'] = z3.Const('abuf0', I2)
+        st.heap['calls'] = z3.K(z3.IntSort(), z3.K(z3.IntSort(), z3.IntVal(0)))
+        st.env.update(ops=Table2(OPSF, nops, 9), op_start=a, op_stop=b_, c=Opaque('c'), c_locs=Opaque('c_locs'), c_caps=Opaque('c_caps'), abuf=Abuf(),
+                      sim_start=s0, sim_stop=s1, delays=Opaque('delays'), simctl_int=SimCtl(), seed=ex.fv('seed', 'int'))
+        st.env['__abuf_len__'] = alen
+        ex.g = dict(a=a.e, b=b_.e, s0=s0.e, s1=s1.e, abuf0=st.heap['abuf'])
+        return st
+
+    def expected(g, kcur, scur):
+        """abuf after all ops < kcur on all lanes, and op kcur on lanes < scur:  via the ghost ACC(k, a, s) recurrence"""
+        return None
+
+    ACC = z3.Function('ACC', z3.IntSort(), z3.IntSort(), z3.IntSort(), z3.IntSort())     # ACC(k, a, s): accumulated value of abuf[a, s] after ops [op_start, k)
+
+    def acc_axiom(g, k):
+        a, s = z3.Ints('qa qs')
+        inl = z3.And(g['s0'] <= s, s < g['s1'])
+        return z3.ForAll([a, s], ACC(k + 1, a, s) == ACC(k, a, s) + z3.If(z3.And(inl, OPSF(k, 6) == a, a >= 0), contrib(k, s), 0))
+
+    def outer_assume(ex, st):
+        g = ex.g
+        k = g['a'] + to_int(st.env['__k0'])
+        st.assume(SBool(acc_axiom(g, k)))
+        st.env['__op_index__'] = SInt(k)
+
+    def outer_inv(ex, st):
+        g = ex.g
+        k = g['a'] + to_int(st.env['__k0'])
+        a, s, j = z3.Ints('qa qs qj')
+        yield 'abuf = accumulated contributions of the ops evaluated so far', SBool(z3.ForAll([a, s], st.heap['abuf'][a][s] == ACC(k, a, s)))
+        yield 'every (op, lane) of the finished ops was evaluated exactly once, nothing else', \
+            SBool(z3.ForAll([j, s], st.heap['calls'][j][s] == z3.If(z3.And(g['a'] <= j, j < k, g['s0'] <= s, s < g['s1']), 1, 0)))
+
+    def inner_inv(ex, st):
+        g = ex.g
+        k = g['a'] + to_int(st.env['__k0'])
+        sc = g['s0'] + to_int(st.env['__k1'])
+        a, s, j = z3.Ints('qa qs qj')
+        done = z3.And(g['s0'] <= s, s < sc, OPSF(k, 6) == a, a >= 0)
+        yield 'abuf = finished ops + the lanes of the current op evaluated so far', \
+            SBool(z3.ForAll([a, s], st.heap['abuf'][a][s] == ACC(k, a, s) + z3.If(done, contrib(k, s), 0)))
+        yield 'exactly-once counter (finished ops, and lanes of the current op so far)', \
+            SBool(z3.ForAll([j, s], st.heap['calls'][j][s] == z3.If(z3.Or(z3.And(g['a'] <= j, j < k, g['s0'] <= s, s < g['s1']),
+                                                                         z3.And(j == k, g['s0'] <= s, s < sc)), 1, 0)))
+        yield 'outer index in range', SBool(z3.And(g['a'] <= k, k < g['b']))
+
+    def post(ex, st):
+        g = ex.g
+        a, s, j = z3.Ints('qa qs qj')
+        yield 'abuf[a, s] = old value + sum over the ops of the range with that accumulator of nrise*wr + nfall*wf (ghost recurrence ACC)', \
+            SBool(z3.ForAll([a, s], st.heap['abuf'][a][s] == ACC(g['b'], a, s)))
+        yield 'every (op, lane) pair of the range is evaluated exactly once and no other', \
+            SBool(z3.ForAll([j, s], st.heap['calls'][j][s] == z3.If(z3.And(g['a'] <= j, j < g['b'], g['s0'] <= s, s < g['s1']), 1, 0)))
+        ex.prove(st, 'mustfail:nothing is ever evaluated', SBool(z3.ForAll([j, s], st.heap['calls'][j][s] == 0)), ex.fn, expect='refuted')
+
+    def setup2(ex):
+        st = setup(ex)
+        a, s = z3.Ints('qa qs')
+        st.assume(SBool(z3.ForAll([a, s], ACC(ex.g['a'], a, s) == ex.g['abuf0'][a][s])))
+        return st
+    contract = {'post': post, 'loops': {0: {'inv': outer_inv, 'assume': outer_assume, 'modifies': ['abuf', 'calls'], 'kinds': {'op': 'keep', 'a_loc': 'int', 'a_wr': 'int', 'a_wf': 'int', 'nrise': 'int', 'nfall': 'int'}},
+                                        1: {'inv': inner_inv, 'modifies': ['abuf', 'calls'], 'kinds': {'a_loc': 'int', 'a_wr': 'int', 'a_wf': 'int', 'nrise': 'int', 'nfall': 'int'}}}}
+    return Config('any op range x lane range', contract, setup2, None)
+
+
+def level_prims(globs):
+    p = {}
+    for nm in ('wave_eval_cpu', '_wave_eval_gpu'):
+        if nm in globs:
+            p[globs[nm]] = eval_callee
+    return p
+
+
+def targets_level():
+    return [Target('wave_sim', 'level_eval_cpu', [level_eval_config()], prims=level_prims, instantiate='fallback',
+                   note='accumulation of weighted switching activity and exactly-once evaluation, against the contract of _wave_eval')]
+
+
+class AtomicModel(Model):
+    def m_getattr(self, ex, st, name, node):
+        if name == 'add':
+            def add(ex_, st_, args, kwargs, node_):
+                arr, idx, val = args
+                if not isinstance(arr, Abuf) or not (isinstance(idx, tuple) and len(idx) == 2):
+                    raise NotInSubset('atomic.add target')
+                cur = arr.m_getitem(ex_, st_, idx, node_)
+                arr.m_setitem(ex_, st_, idx, cur + val, node_)
+                return cur
+            return Method2(add)
+        raise NotInSubset(f'cuda.atomic.{name}')
+
+
+class Method2(Model):
+    def __init__(self, fn):
+        self.fn = fn
+
+    def m_call(self, ex, st, args, kwargs, node):
+        return self.fn(ex, st, args, kwargs, node)
+
+
+class CudaModel2(CudaModel):
+    def m_getattr(self, ex, st, name, node):
+        if name == 'atomic':
+            return AtomicModel()
+        return super().m_getattr(ex, st, name, node)
+
+
+class OpsRows(Table2):
+    """ops[op_idx] also records which op index the thread works on (for the callee's call-site check)"""
+    def m_getitem(self, ex, st, idx, node):
+        r = super().m_getitem(ex, st, idx, node)
+        if isinstance(r, tuple):
+            st.env['__op_index__'] = idx
+        return r
+
+
+def eval_gpu_config():
+    def setup(ex):
+        st = State()
+        a, b_, s0, s1, nops, alen = (ex.fv(n, 'int') for n in ('op_start', 'op_stop', 'sim_start', 'sim_stop', 'n_ops', 'abuf_len'))
+        x, y = ex.fv('x', 'int'), ex.fv('y', 'int')
+        st.assume(SBool(z3.And(0 <= a.e, a.e <= b_.e, b_.e <= nops.e, 0 <= s0.e, s0.e <= s1.e, alen.e >= 1, x.e >= 0, y.e >= 0)))
+        k = z3.Int('k')
+        st.assume(SBool(z3.ForAll([k], z3.Implies(z3.And(0 <= k, k < nops.e), OPSF(k, 6) < alen.e))))
+        st.heap['abuf'] = z3.Const('abuf0', I2)
+        st.heap['calls'] = z3.K(z3.IntSort(), z3.K(z3.IntSort(), z3.IntVal(0)))
+        st.env.update(ops=OpsRows(OPSF, nops, 9), op_start=a, op_stop=b_, cbuf=Opaque('c'), c_locs=Opaque('c_locs'), c_caps=Opaque('c_caps'), abuf=Abuf(),
+                      sim_start=s0, sim_stop=s1, delays=Opaque('delays'), simctl_int=SimCtl(), seed=ex.fv('seed', 'int'), cuda=CudaModel2())
+        st.env['__x__'], st.env['__y__'] = x, y
+        st.env['__abuf_len__'] = alen
+        ex.g = dict(a=a.e, b=b_.e, s0=s0.e, s1=s1.e, x=x.e, y=y.e, abuf0=st.heap['abuf'])
+        return st
+
+    def post(ex, st):
+        g = ex.g
+        sim, k = g['s0'] + g['x'], g['a'] + g['y']
+        active = z3.And(sim < g['s1'], k < g['b'])
+        aq, sq, jq = z3.Ints('qa qs qj')
+        A1, A0, C1 = st.heap['abuf'], g['abuf0'], st.heap['calls']
+        yield 'an active thread evaluates exactly its (op, lane) pair once; an inactive thread evaluates nothing', \
+            SBool(z3.ForAll([jq, sq], C1[jq][sq] == z3.If(z3.And(active, jq == k, sq == sim), 1, 0)))
+        yield 'abuf changes only at [accumulator of the op, own lane] by nrise*wr + nfall*wf', \
+            SBool(z3.ForAll([aq, sq], A1[aq][sq] == A0[aq][sq] + z3.If(z3.And(active, OPSF(k, 6) == aq, aq >= 0, sq == sim), contrib(k, sim), 0)))
+        ex.prove(st, 'mustfail:the thread never evaluates anything', SBool(z3.ForAll([jq, sq], C1[jq][sq] == 0)), ex.fn, expect='refuted')
+    return Config('any thread (x, y)', {'post': post}, setup, None)
+
+
+def targets_level():
+    return [Target('wave_sim', 'level_eval_cpu', [level_eval_config()], prims=level_prims, instantiate='fallback',
+                   note='accumulation of weighted switching activity and exactly-once evaluation, against the contract of _wave_eval'),
+            Target('wave_sim', 'wave_eval_gpu', [eval_gpu_config()], prims=level_prims, instantiate='fallback',
+                   note='one GPU thread: guards, one evaluation of its (op, lane), atomic accumulation')]
